@@ -137,7 +137,7 @@ theorem getCommitsAnd_parse (E : Params) : ∀ (rs : List RepS) (r : Vec) (st st
     exact ⟨[], rfl, by simp [vpReps], by simp [placeReps], by simp⟩
   | cons rp rs ih =>
     intro r st st' vps r' h
-    simp only [List.map_cons, getCommitsAnd, RepS.toPred, getCommits, mkVec, Option.getD_some] at h
+    simp only [List.map_cons, getCommitsAnd, RepS.toPred, getCommits, mkVec, Option.getD_some, placeTermsB_v] at h
     cases hg : st.get E.cd.plen E.cd.decP with
     | error e => rw [hg] at h; cases h
     | ok res =>
@@ -174,7 +174,7 @@ theorem getCommits_scope_parse (E : Params) (sc : Scope) (st st' : VCtx) (vp : V
       simp only [Except.ok.injEq, Prod.mk.injEq] at h
       obtain ⟨rfl, rfl, rfl⟩ := h
       obtain ⟨g1, g2, _⟩ := VCtx.get_ok hg
-      refine ⟨[V], rfl, by simp [Scope.vp], ?_⟩
+      refine ⟨[V], rfl, by simp [Scope.vp, placeTermsB_v], ?_⟩
       simp only [Scope.reps, List.length_singleton, Nat.one_mul]
       rw [g2, List.length_drop]; omega
   | all rs =>
